@@ -63,6 +63,9 @@ type Broker struct {
 	cancel  context.CancelFunc
 	Opts    Opts
 	clients []*Client
+
+	masterOnce sync.Once
+	master     string
 }
 
 // Opts configures a broker.
@@ -158,6 +161,12 @@ func (b *Broker) Close() {
 
 // MasterKey returns an encrypted master key of the broker's license.
 func (b *Broker) MasterKey() string {
+	// one master key per broker, as an operator has: every key issued through Key() derives from the same string
+	b.masterOnce.Do(func() { b.master = b.newMasterKey() })
+	return b.master
+}
+
+func (b *Broker) newMasterKey() string {
 	k, err := b.Lic.NewMasterKey(1)
 	if err != nil {
 		panic(err)
